@@ -180,6 +180,46 @@ ABSTRACT = {'Operator', 'Functional', 'PointwiseTensorFieldOperator', 'Pointwise
             'DiscreteFourierTransformBase', 'FourierTransformBase', 'WaveletTransformBase'}
 
 
+def matrix_nd():
+    """MatrixOperator along every axis of 3-d and 4-d tensor spaces: square and non-square,
+    dense (scipy sparse matrices are refused by the constructor for more than one axis)."""
+    import odl
+    out = []
+    for shape in ((3, 3, 2), (3, 2, 4), (2, 3, 2, 3)):
+        for axis in range(len(shape)):
+            for square in (True, False):
+                rows = shape[axis] if square else shape[axis] + 1
+                arr = (np.arange(rows * shape[axis], dtype=float).reshape(rows, shape[axis]) % 5
+                       - 2.0) / 2
+                tag = '{}d{}-ax{}-{}'.format(len(shape), 'x'.join(map(str, shape)), axis,
+                                             'sq' if square else 'rect')
+                out.append((tag, lambda arr=arr, shape=shape, axis=axis:
+                            odl.MatrixOperator(arr, domain=odl.rn(shape), axis=axis)))
+    return out
+
+
+def resizing_bdry():
+    """ResizingOperator on spaces with grid nodes on the boundary (fractional boundary cells),
+    1-d and 2-d, every padding mode, growing and shrinking; the adjoints are reached as derived
+    operators."""
+    import odl
+    out = []
+    s1 = odl.uniform_discr(0, 1, 5, nodes_on_bdry=True)
+    s2 = odl.uniform_discr([0, 0], [1, 1], (4, 5), nodes_on_bdry=True)
+    s2m = odl.uniform_discr([0, 0], [1, 1], (4, 5), nodes_on_bdry=[(True, False), (False, True)])
+    for mode in ('constant', 'symmetric', 'periodic', 'order0', 'order1'):
+        kw = {'pad_mode': mode, 'discr_kwargs': {'nodes_on_bdry': True}}
+        out.append(('bdry1d-grow-' + mode, lambda kw=kw: odl.ResizingOperator(s1, ran_shp=(9,), **kw)))
+        out.append(('bdry1d-shrink-' + mode,
+                    lambda kw=kw: odl.ResizingOperator(s1, ran_shp=(3,), **kw)))
+        out.append(('bdry2d-grow-' + mode,
+                    lambda kw=kw: odl.ResizingOperator(s2, ran_shp=(8, 7), **kw)))
+        out.append(('bdry2d-mixed-' + mode, lambda mode=mode: odl.ResizingOperator(
+            s2m, ran_shp=(6, 4), pad_mode=mode,
+            discr_kwargs={'nodes_on_bdry': [(True, False), (False, True)]})))
+    return out
+
+
 def constructors():
     """class name -> list of (variant, thunk)."""
     import odl
@@ -273,7 +313,7 @@ def constructors():
                                                                             [0, 0, -1]]))),
                            ('axis', lambda: odl.MatrixOperator(mat, domain=odl.rn((2, 3)), axis=1)),
                            ('sparse', lambda: odl.MatrixOperator(
-                               __import__('scipy.sparse').sparse.csr_matrix(mat)))],
+                               __import__('scipy.sparse').sparse.csr_matrix(mat)))] + matrix_nd(),
         'PointwiseInner': [('', lambda: odl.PointwiseInner(vf, vf.one())),
                            ('w', lambda: odl.PointwiseInner(vf, vf.one(), weighting=[1, 2]))],
         'PointwiseInnerAdjoint': [('', lambda: odl.PointwiseInner(vf, vf.one()).adjoint)],
@@ -305,7 +345,8 @@ def constructors():
         'ResizingOperator': [('grow', lambda: odl.ResizingOperator(d6, ran_shp=(10,))),
                              ('shrink', lambda: odl.ResizingOperator(d6, ran_shp=(4,))),
                              ('sym', lambda: odl.ResizingOperator(d2, ran_shp=(6, 5),
-                                                                  pad_mode='symmetric'))],
+                                                                  pad_mode='symmetric'))]
+        + resizing_bdry(),
         'LinDeformFixedDisp': [('', lambda: odl.deform.LinDeformFixedDisp(
             odl.ProductSpace(d6, 1).element([np.linspace(-0.1, 0.1, 6)])))],
         'LinDeformFixedTempl': [('', lambda: odl.deform.LinDeformFixedTempl(
@@ -482,6 +523,14 @@ def check_instance(ctx, label, op, rng, deep=False):
             problems.append(('input-unchanged-oop', 'x modified by op(x)', xdesc))
         if np.any(ref.val != 0):
             nontrivial = True
+        # a second call on the same input must give the same result (an operator that scaled
+        # the array behind x in place would not)
+        again = safe_call(op, x)
+        if again.status != 'ok' or not same(again.val, ref.val, rtol=1e-12):
+            problems.append(('second-call-same-result',
+                             'op(x) called twice gives different results: {} then {}'.format(
+                                 ref.val[:4], again.val[:4] if again.status == 'ok'
+                                 else again.status), xdesc))
         if functional:
             o = safe_call(op, x, out=ref.obj)
             if not o.status.startswith('err:type'):
@@ -523,22 +572,39 @@ def check_instance(ctx, label, op, rng, deep=False):
                     break
             # aliased call where possible is C10's subject; here: OperatorVectorSum must not
             # write into x even if the leaf returns its input
-            if isinstance(op.range, odl.LinearSpace):
+            if isinstance(op.range, odl.LinearSpace) and (deep or positive is False):
+                # expression classes around the instance must not write into x even when op(x)
+                # returns x itself or a view of x (RealPart, FlatteningOperator, ...)
                 try:
                     v = rand_elem(op.range, rng)
-                    vs = odl.OperatorVectorSum(op, v)
+                    vv = snapshot(v)
+                    wrappers = [
+                        ('vecsum', lambda: odl.OperatorVectorSum(op, v), lambda r: r + vv),
+                        ('leftvecmult', lambda: odl.OperatorLeftVectorMult(op, v), lambda r: r * vv),
+                        ('leftscalmult', lambda: odl.OperatorLeftScalarMult(op, 2.0),
+                         lambda r: 2.0 * r),
+                        ('sum', lambda: odl.OperatorSum(op, op), lambda r: r + r),
+                        ('pwprod', lambda: odl.OperatorPointwiseProduct(op, op), lambda r: r * r),
+                    ]
+                except Exception:
+                    wrappers = []
+                for wname, mkw, expect in wrappers:
+                    try:
+                        wop = mkw()
+                    except Exception:  # construction not possible for this range / field
+                        continue
                     x1 = x.copy() if hasattr(x, 'copy') else x
                     x1s = snapshot(x1)
-                    o = safe_call(vs, x1)
-                    if o.status == 'ok':
-                        if not bitsame(snapshot(x1), x1s):
-                            problems.append(('vecsum-input-unchanged',
-                                             '(op + v)(x) wrote into x (op(x) returned an object '
-                                             'sharing its data with x)', xdesc))
-                        elif not same(o.val, ref.val + snapshot(v)):
-                            problems.append(('vecsum-value', '(op + v)(x) != op(x) + v', xdesc))
-                except Exception:  # construction not possible for this range
-                    pass
+                    o = safe_call(wop, x1)
+                    if o.status != 'ok':
+                        continue
+                    if not bitsame(snapshot(x1), x1s):
+                        problems.append((wname + '-input-unchanged',
+                                         '{}(op, ..)(x) wrote into x (op(x) returned x or an object '
+                                         'sharing its data with x)'.format(type(wop).__name__), xdesc))
+                    elif np.all(np.isfinite(ref.val)) and not same(o.val, expect(ref.val)):
+                        problems.append((wname + '-value', '{}(op, ..)(x) has the wrong value'
+                                         .format(type(wop).__name__), xdesc))
         # malformed input
         bad_x = object()
         o = safe_call(op, bad_x)
